@@ -8,6 +8,7 @@ mod extract;
 mod trainer;
 mod gen;
 mod image;
+mod limits;
 mod replay;
 mod rewrite;
 mod rng;
@@ -516,6 +517,11 @@ fn main() {
                 trainer::run(mode, seed, n, &mut out);
             }
         },
+        "limits" => {
+            let seed: u64 = args[2].parse().unwrap();
+            let n: usize = args[3].parse().unwrap();
+            limits::run(seed, n, &mut out);
+        }
         "cli" => {
             let seed: u64 = args[2].parse().unwrap();
             let n: usize = args[3].parse().unwrap();
